@@ -1,6 +1,6 @@
 #!/bin/bash
-# Warm the builds the checks rebuild incrementally: native replay drivers (release) and one Verus start-up.
-# Everything is offline; the checks work without this, only slower the first time.
+# Warm everything the checks rebuild incrementally (all offline): the native replay drivers (release),
+# the Kani harness builds and Verus' first start. The checks work without this, only slower the first time.
 cd "$(dirname "$0")"
 export CARGO_NET_OFFLINE=true
 python3 - <<'PY'
@@ -11,4 +11,8 @@ root = os.getcwd()
 for c in ('replay', 'replay_lsp', 'replay_lsp+lsp'):
     print('building', c, '->', replay.build(root, c), flush=True)
 PY
+for p in C04 C05 C07 C19; do
+  VERIF_TIER=quick ./check $p >/dev/null 2>&1
+  echo "warm-up run of $p: exit $?"
+done
 exit 0
